@@ -118,6 +118,8 @@ fn logistic_params() -> Vec<Param> {
         loose0("gradient_tolerance", "linfa-logistic/src/error.rs:23 \"gradient_tolerance must be a positive, finite number\"", 1e-4, 1e10),
         free("max_iterations", "linfa-logistic/src/hyperparams.rs:86 no documented range", vec![(Sym::U(0), "zero"), (Sym::U(1), "one"), (Sym::U(100), "default")]),
         free("with_intercept", "linfa-logistic/src/hyperparams.rs:80 bool", vec![(Sym::B(true), "true"), (Sym::B(false), "false")]),
+        // finite initial parameters (non-finite ones are outside the property); shape errors are raised by fit
+        free("initial_params", "linfa-logistic/src/hyperparams.rs:100 optional start point, guard: must be finite (hyperparams.rs:47); constructor-time choice of the point", vec![(Sym::S("unset"), "unset"), (Sym::S("finite"), "finite")]),
     ]
 }
 
@@ -154,11 +156,18 @@ pub fn multi_logistic_spec() -> BuilderSpec {
 }
 
 macro_rules! logistic_impl {
-    ($name:ident, $f:ty, $builder:ident, $labels:expr) => {
+    ($name:ident, $f:ty, $builder:ident, $labels:expr, $init:expr) => {
         fn $name(case: &Case, spec: &BuilderSpec, out: &mut Outcome) {
             let labels: [usize; 8] = $labels;
             let ds = Dataset::new(xmat::<$f>(), Array1::from_shape_fn(8, |i| labels[i]));
-            let base = || $builder::<$f>::default();
+            let base = || {
+                let p = $builder::<$f>::default();
+                if case.s("initial_params") == "finite" {
+                    p.initial_params(($init)(case.b("with_intercept")))
+                } else {
+                    p
+                }
+            };
             let set = setter(&base, |mut p, c| { if c.moved(&["alpha"]) { p = p.alpha(c.f("alpha") as $f); } if c.moved(&["gradient_tolerance"]) { p = p.gradient_tolerance(c.f("gradient_tolerance") as $f); } if c.moved(&["max_iterations"]) { p = p.max_iterations(c.u("max_iterations")); } if c.moved(&["with_intercept"]) { p = p.with_intercept(c.b("with_intercept")); } p });
             let make = || set(base(), case);
             let ops = vec![op(
@@ -172,10 +181,10 @@ macro_rules! logistic_impl {
         }
     };
 }
-logistic_impl!(logistic_f64, f64, LogisticRegression, [0, 0, 1, 0, 1, 0, 1, 1]);
-logistic_impl!(logistic_f32, f32, LogisticRegression, [0, 0, 1, 0, 1, 0, 1, 1]);
-logistic_impl!(multi_logistic_f64, f64, MultiLogisticRegression, [0, 0, 1, 0, 2, 1, 2, 2]);
-logistic_impl!(multi_logistic_f32, f32, MultiLogisticRegression, [0, 0, 1, 0, 2, 1, 2, 2]);
+logistic_impl!(logistic_f64, f64, LogisticRegression, [0, 0, 1, 0, 1, 0, 1, 1], |i: bool| Array1::<f64>::from_elem(2 + i as usize, 0.125));
+logistic_impl!(logistic_f32, f32, LogisticRegression, [0, 0, 1, 0, 1, 0, 1, 1], |i: bool| Array1::<f32>::from_elem(2 + i as usize, 0.125));
+logistic_impl!(multi_logistic_f64, f64, MultiLogisticRegression, [0, 0, 1, 0, 2, 1, 2, 2], |i: bool| Array2::<f64>::from_elem((2 + i as usize, 3), 0.125));
+logistic_impl!(multi_logistic_f32, f32, MultiLogisticRegression, [0, 0, 1, 0, 2, 1, 2, 2], |i: bool| Array2::<f32>::from_elem((2 + i as usize, 3), 0.125));
 
 // ------------------------------------------------------------------------------------------
 // Tweedie GLM
@@ -208,6 +217,7 @@ pub fn tweedie_spec() -> BuilderSpec {
             free("max_iter", "linfa-linear/src/glm/hyperparams.rs:108 no documented range", vec![(Sym::U(0), "zero"), (Sym::U(100), "default")]),
             free("tol", "linfa-linear/src/glm/hyperparams.rs:114 no documented range", vec![(Sym::L(1e-4), "default"), (Sym::L(1e-2), "loose")]),
             free("fit_intercept", "linfa-linear/src/glm/hyperparams.rs:87 bool", vec![(Sym::B(true), "true"), (Sym::B(false), "false")]),
+            free("link", "linfa-linear/src/glm/hyperparams.rs:99 optional link function (constructor-time choice of the point: the setter cannot unset it)", vec![(Sym::S("unset"), "unset"), (Sym::S("log"), "log")]),
         ],
         relation: no_relation,
         err_param: |e| {
@@ -229,7 +239,14 @@ macro_rules! tweedie_impl {
             // features scaled to [0, 0.7]: with the log link and no intercept the L-BFGS line search of the
             // GLM does not terminate on larger features (a training problem outside this property)
             let ds = Dataset::new(xmat::<$f>().mapv(|v| v * 0.1), yvec::<$f>());
-            let base = || TweedieRegressor::<$f>::params();
+            let base = || {
+                let p = TweedieRegressor::<$f>::params();
+                if case.s("link") == "log" {
+                    p.link(linfa_linear::Link::Log)
+                } else {
+                    p
+                }
+            };
             let set = setter(&base, |mut p, c| { if c.moved(&["alpha"]) { p = p.alpha(c.f("alpha") as $f); } if c.moved(&["power"]) { p = p.power(c.f("power") as $f); } if c.moved(&["max_iter"]) { p = p.max_iter(c.u("max_iter") as usize); } if c.moved(&["tol"]) { p = p.tol(c.f("tol") as $f); } if c.moved(&["fit_intercept"]) { p = p.fit_intercept(c.b("fit_intercept")); } p });
             let make = || set(base(), case);
             let ops = vec![op(
